@@ -99,6 +99,8 @@ def main(run):
     model_ok = run.build_model()
     run.run_findings()
     run.pylite(['records'])
+    if run.thorough:
+        run.pylite_fuzz()
     if model_ok:
         for what, c, m in run.differential(cases(run)):
             run.violation(what, {"call": c["cmd"][:2000], "implementation": c["impl"][:3000],
